@@ -137,7 +137,8 @@ def parse_log(text):
 def classify(rc, text, parsed):
     if rc == 124 or rc == 137 and "VERIFICATION" not in text:
         return "timeout"
-    if "appears to have run out of memory" in text or "std::bad_alloc" in text or "MemoryError" in text:
+    if ("appears to have run out of memory" in text or "std::bad_alloc" in text or "MemoryError" in text
+            or "Solver ran out of memory" in text):
         return "oom"
     if parsed["status"] == "SUCCESSFUL":
         if parsed["unsat_covers"] or parsed["covers_sat"] != parsed["covers_total"]:
